@@ -203,3 +203,94 @@ theorem depthAfter_elems (es : List Elem) (hes : ∀ e ∈ es, e.ok) (d : Nat) :
     simp [depthAfter, ih (fun x hx => hes x (by simp [hx]))]
 
 end XmppModel.Stanza
+
+namespace XmppModel.Stanza
+open XmppModel.Xml
+
+/-! ### the trip through bytes and `UnmarshalError` (round C) -/
+
+theorem inherit_self (s : String) : (if s = "" then "" else s) = s := by
+  by_cases h : s = "" <;> simp [h]
+
+/-- text elements carry their own namespace: printing and re-parsing leaves them as they are -/
+theorem wireGo_texts (l : List (String × String)) (st : List String) (rest : List Tok) :
+    wireGo st (l.flatMap (textElem nsErr) ++ rest) = l.flatMap (textElem nsErr) ++ wireGo st rest := by
+  induction l with
+  | nil => simp
+  | cons p ps ih =>
+    simp only [List.flatMap_cons, List.append_assoc]
+    simp [textElem, wireGo, nsErr, topNs] at ih ⊢
+    exact ih
+
+theorem depthAfter_errContent (e : SErr) : depthAfter 0 (errContent e []) = some 0 := by
+  unfold errContent
+  rw [List.append_nil, depthAfter_append]
+  simp [depthAfter, depthAfter_texts]
+
+/-- the error reply after the trip: everything as before, the `<error/>` element now in the
+content namespace of the stanza -/
+theorem wireGo_errorReply (k : Kind) (x : Stz) (e : SErr) :
+    wireGo [] (errorReply k x e) =
+      wrap k (swap x "error") (.start ⟨x.name.space, "error"⟩ (errAttrs e) :: errContent e [] ++
+        [.stop ⟨x.name.space, "error"⟩]) := by
+  simp only [errorReply, wrap, startElement, startName, swap, errTokens, errContent, List.cons_append,
+    List.append_assoc, List.append_nil, List.nil_append, List.singleton_append]
+  simp only [wireGo, topNs, inherit_self, if_true]
+  simp only [show (nsErr = "") = False from by simp [nsErr], if_false]
+  rw [wireGo_texts]
+  simp [wireGo, topNs]
+
+/-- the names of the element do not matter to `(*stanza.Error).UnmarshalXML` -/
+theorem decodeErr_names (parse : String → Option String) (n m n' m' : Name) (as : List Attr) (c : List Tok) :
+    decodeErr parse (.start n as :: c ++ [.stop m]) = decodeErr parse (.start n' as :: c ++ [.stop m']) := by
+  unfold decodeErr
+  rw [contentOf_wrap, contentOf_wrap]
+
+/-- the search of `UnmarshalError` stops at an error element that comes first, and hands its
+content (balanced) to the decoder -/
+theorem findError_first (p : Name → Bool) (n m : Name) (as : List Attr) (c rest : List Tok) (hp : p n = true)
+    (hc : depthAfter 0 c = some 0) :
+    findErrorP p 0 (.start n as :: c ++ .stop m :: rest) = some (n, as, c) := by
+  have := Encoder.inner_balanced c (.stop m :: rest) 0 0 hc
+  simp [findErrorP, hp, this, Encoder.inner]
+
+end XmppModel.Stanza
+
+namespace XmppModel.Stanza
+open XmppModel.Xml
+
+/-- inside a child that is being skipped, balanced content leaves the search where it was -/
+theorem findErrorP_body (p : Name → Bool) (body rest : List Tok) :
+    ∀ r r', depthAfter r body = some r' → findErrorP p (r + 1) (body ++ rest) = findErrorP p (r' + 1) rest := by
+  induction body with
+  | nil => intro r r' h; simp [depthAfter] at h; simp [h]
+  | cons t ts ih =>
+    intro r r' h
+    cases t with
+    | start n as => simp only [depthAfter] at h; simpa [findErrorP] using ih (r + 1) r' h
+    | stop n =>
+      cases r with
+      | zero => simp [depthAfter] at h
+      | succ r0 => simp only [depthAfter] at h; simpa [findErrorP] using ih r0 r' h
+    | chars s => simp only [depthAfter] at h; simpa [findErrorP] using ih r r' h
+    | comment s => simp only [depthAfter] at h; simpa [findErrorP] using ih r r' h
+    | procInst x y => simp only [depthAfter] at h; simpa [findErrorP] using ih r r' h
+    | directive s => simp only [depthAfter] at h; simpa [findErrorP] using ih r r' h
+
+/-- a complete child element that is not accepted is skipped as a whole -/
+theorem findErrorP_elems (p : Name → Bool) (es : List Elem) (hes : ∀ e ∈ es, e.ok)
+    (hn : ∀ e ∈ es, p e.name = false) (rest : List Tok) :
+    findErrorP p 0 (es.flatMap Elem.toks ++ rest) = findErrorP p 0 rest := by
+  induction es with
+  | nil => simp
+  | cons e es ih =>
+    have hb : depthAfter 0 e.body = some 0 := by
+      have := hes e (by simp); simpa [Elem.ok, balanced] using this
+    have hp := hn e (by simp)
+    simp only [List.flatMap_cons, Elem.toks, List.cons_append, List.append_assoc]
+    simp only [findErrorP, hp, Bool.false_eq_true, if_false]
+    rw [findErrorP_body p e.body _ 0 0 hb]
+    simp only [List.singleton_append, findErrorP]
+    exact ih (fun x hx => hes x (by simp [hx])) (fun x hx => hn x (by simp [hx]))
+
+end XmppModel.Stanza
